@@ -191,9 +191,12 @@ def run_pair(kinds, seqs, ctx, solo=None, transport='udp'):
     for i, d in enumerate(devs):
         d.kern = KProxy(i)
     ports = [502 if (transport == 'tcp' or k.split('+')[0].split('=')[0].endswith('tcp')) else 8899 for k in kinds]
+    # (alone means alone: in the solo run the other object is not even constructed)
     invs = [world.FAMILIES[f](HOSTS[i], ports[i], 0x11 if kinds[i].split('+')[0].split('=')[0].endswith('addr') else 0, 1,
-                              1 if '+r1' in kinds[i] else 0) for i, f in enumerate(fams)]
+                              1 if '+r1' in kinds[i] else 0) if (solo is None or solo == i) else None for i, f in enumerate(fams)]
     for i, k in enumerate(kinds):
+        if invs[i] is None:
+            continue
         if k.endswith('addr'):
             devs[i].unit = 0x11
         if '+ka' in k:
